@@ -3,7 +3,7 @@
 From Coq Require Import NArith ZArith List Bool Lia String Ascii.
 From SasLexer Require Import Gen.TokenType Gen.ErrorKind Gen.Channel Model.Base Model.Helpers Model.Numeric Model.Core Model.Buffer
      Model.Lexer3 Spec.RefLex Proofs.Generic Proofs.LexGeneric Proofs.Sorted Proofs.LexSorted Proofs.RefLexProofs Proofs.RefLexErrors Proofs.RefLexTiling Proofs.RefLexShape Proofs.RefLexRanges Proofs.RefLexCase Proofs.Tables Proofs.CaseInv
-     Proofs.Lines Proofs.LexLines Proofs.TokLines Proofs.ErrLines Proofs.ColLines Proofs.OcBase Proofs.OcWhole Proofs.OcAll.
+     Proofs.Lines Proofs.LexLines Proofs.TokLines Proofs.ErrLines Proofs.ColLines Proofs.EndLines Proofs.OcBase Proofs.OcWhole Proofs.OcAll.
 Import ListNotations.
 Open Scope N_scope.
 
@@ -306,4 +306,40 @@ Proof.
   destruct (lex_lines_macro_free msep src H) as (H1 & H2 & H3 & H4 & H5).
   pose proof (lex_token_start_column (mkCfg false msep) src) as G. cbv zeta in G.
   destruct (split_bom src) as [[bb bc] text]. exact (G H1 H2 H3 H4 H5).
+Qed.
+
+(** C04: [C04_macro_free_token_end_position] *)
+Lemma chain_adjacent : forall (l : list tok) lo hi i a b,
+  chain lo hi (map t_byte l) -> nthN l i = Some a -> nthN l (i + 1) = Some b -> t_byte a <= t_byte b.
+Proof.
+  induction l as [|x l IH]; intros lo hi i a b C Ha Hb; [cbn in Ha; discriminate|].
+  cbn [map chain] in C. destruct C as [_ C].
+  destruct (N.eqb_spec i 0) as [->|Hi].
+  - cbn [nthN] in Ha. cbn in Ha. injection Ha as <-.
+    change (0 + 1) with 1 in Hb. cbn [nthN] in Hb. change (1 =? 0) with false in Hb. cbv iota in Hb. change (N.pred 1) with 0 in Hb.
+    destruct l as [|y l']; [cbn in Hb; discriminate|]. cbn in Hb. injection Hb as <-. cbn [map chain] in C. exact (proj1 C).
+  - replace i with ((i - 1) + 1) in Ha, Hb by lia. rewrite BufferProofs.nthN_cons_succ in Ha, Hb.
+    exact (IH _ _ _ _ _ C Ha Hb).
+Qed.
+
+Lemma mf_C04_macro_free_token_end_position : forall (msep : bool) (src : list char),
+  macro_free (body_of src) = true ->
+  let r := lex (mkCfg false msep) src in
+  let '((bb, _), text) := split_bom src in
+  forall d i t nt, nthN (b_toks (lr_buffer r)) i = Some t -> nthN (b_toks (lr_buffer r)) (i + 1) = Some nt ->
+  forall pe re, text = pe ++ re -> blen pe + bb = t_byte nt ->
+    let ep := end_pos pe (negb (t_byte t =? t_byte nt)) in
+    get_token_end_line d (lr_buffer r) i = AOk (fst ep) /\ get_token_end_column d (lr_buffer r) i = AOk (snd ep).
+Proof.
+  intros msep src H. cbv zeta.
+  destruct (lex_lines_macro_free msep src H) as (H1 & H2 & H3 & H4 & H5).
+  pose proof (lex_token_end_position (mkCfg false msep) src) as G. cbv zeta in G.
+  pose proof (mf_C02_macro_free_tiling msep src H) as Tl. cbv zeta in Tl.
+  unfold split_bom in *.
+  destruct src as [|c r0]; [|destruct (c =? BOM) eqn:Eb].
+  - intros d i t nt Hi Hn. destruct Tl as [C _]. exact (G H1 H2 H3 H4 H5 d i t nt Hi Hn (chain_adjacent _ _ _ _ _ _ C Hi Hn)).
+  - change (c =? 65279) with (c =? BOM) in Tl. rewrite Eb in Tl.
+    intros d i t nt Hi Hn. destruct Tl as [C _]. exact (G H1 H2 H3 H4 H5 d i t nt Hi Hn (chain_adjacent _ _ _ _ _ _ C Hi Hn)).
+  - change (c =? 65279) with (c =? BOM) in Tl. rewrite Eb in Tl.
+    intros d i t nt Hi Hn. destruct Tl as [C _]. exact (G H1 H2 H3 H4 H5 d i t nt Hi Hn (chain_adjacent _ _ _ _ _ _ C Hi Hn)).
 Qed.
